@@ -598,6 +598,10 @@ func genElemName(r *rand.Rand) string {
 	if r.Intn(25) == 0 {
 		return []string{"é", "x/y", "", "*", "meta"}[r.Intn(5)]
 	}
+	if r.Intn(12) == 0 {
+		// names one of which is a textual prefix of another (eth1 / eth10): distinct elements
+		return []string{"a1", "ab", "b1"}[r.Intn(3)]
+	}
 	return genNames[r.Intn(len(genNames))]
 }
 
